@@ -220,6 +220,17 @@ class Runner(object):
             else:
                 kw['maxsize'] = cfg['maxsize']
         self.deco = cls(*args, **kw)
+        if cfg.get('bystander'):
+            # another decorator of the same class, configured differently, is built before this one is applied
+            # (a table of memoizers configured up front): each instance keeps its own settings
+            okw = dict(kw, cache=_ka.cache(), keymap=klepto.keymaps.stringmap(flat=not cfg['keymap']['flat']))
+            if cfg['algo'] in BOUNDED:
+                okw['purge'] = not kw.get('purge', False)
+                okw.pop('maxsize', None)
+                self.bystander = cls(1000, **okw)
+            else:
+                self.bystander = cls(**okw)
+            self.note('decorators_with_bystander')
         if cfg.get('copied'):
             import copy as _copy
             self.deco = _copy.copy(self.deco)
@@ -1035,6 +1046,7 @@ def gen_case(rng, focus, nops=None):
            'keymap': km, 'backend': b}
     # (the decorator is sometimes a copy.copy of the configured one - e.g. one template decorator applied to many functions)
     cfg['copied'] = rng.random() < 0.1
+    cfg['bystander'] = rng.random() < 0.15
     if focus == 'C18':
         if rng.random() < 0.4:
             cfg['tol'] = rng.choice([0, 1, 2]); cfg['deep'] = rng.random() < 0.4
@@ -1057,6 +1069,11 @@ def gen_case(rng, focus, nops=None):
     if algo not in BOUNDED:
         cfg['maxsize'] = 0 if algo == 'no' else None
     universe = list(gen.UNIVERSE)
+    if rng.random() < 0.3:
+        # text that is canonically equivalent (NFC == NFC) but not equal: different arguments
+        universe += [u'caf\u00e9', u'cafe\u0301']
+        if rng.random() < 0.5:
+            universe += [u'\u2126', u'\u03a9']       # OHM SIGN / GREEK CAPITAL OMEGA
     if focus == 'C18':
         universe += [2.54, 2.51, 0.12345, 1.005]
         if cfg.get('deep'):
